@@ -156,6 +156,35 @@ def run(ck):
             sgen = make(sgz)
             ck.case(fp=('generic-box', str(sgz)), nontrivial=True)
             witness_check(ck, sgen, 'generic', {'z': [str(w) for w in sgz]}, n=1024)
+    # derived objects (rotated / scaled / translated / reversed / cropped copies of every kind of segment, and of a path) have the box of *their* curve,
+    # whatever the original had been asked before; far from the origin and in small units too
+    dpool = [sp.Line(0j, 3 + 4j), sp.QuadraticBezier(3 + 4j, 8 + 9j, 5 + 0j), sp.CubicBezier(5 + 0j, 1 - 6j, 9 - 6j, 6 + 1j), sp.Arc(6 + 1j, 3 + 2j, 30, True, False, 2 + 2j),
+             sp.Arc(0j, 5 + 5j, 0, False, True, 6 + 2j), sp.Arc(1 + 1j, 4 + 1.5j, -70, False, True, 5 - 2j), sp.CubicBezier(0j, 10 + 0j, 0 + 10j, 10 + 10j)]
+    ops = [('rotated(33)', lambda g: g.rotated(33, origin=1 + 2j)), ('rotated(90)', lambda g: g.rotated(90, origin=0j)), ('rotated(-160)', lambda g: g.rotated(-160, origin=3 - 1j)),
+           ('scaled(2.5)', lambda g: g.scaled(2.5)), ('scaled(-1)', lambda g: g.scaled(-1)), ('translated', lambda g: g.translated(7 - 3j)), ('reversed', lambda g: g.reversed()),
+           ('cropped', lambda g: g.cropped(0.2, 0.9)), ('far away', lambda g: g.translated(500000 + 4649776j)), ('small', lambda g: g.scaled(1e-4)),
+           ('rotated twice', lambda g: g.rotated(33, origin=0j).rotated(47, origin=0j))]
+    for di, g in enumerate(dpool):
+        for warmed in (False, True):
+            for on_, of_ in ops:
+                import copy
+                src = copy.deepcopy(g)
+                if warmed:
+                    src.bbox()
+                    src.length()
+                ck.case(fp=('derived-box', di, on_, warmed), nontrivial=True)
+                try:
+                    ob = of_(src)
+                except Exception as e:      # noqa
+                    ck.disagree(key='bbox/derived/%s-raises' % on_, site='svgpathtools/path.py', what='%s of %r raised %r' % (on_, g, e), case={'seg': repr(g), 'op': on_}, expected='a segment', observed=repr(e), driver='derived')
+                    continue
+                witness_check(ck, ob, 'derived', {'seg': repr(g), 'op': on_, 'warmed': warmed}, n=512, tol=1e-7 if on_ != 'far away' else 1e-9)
+                if on_ in ('rotated(33)', 'scaled(2.5)', 'far away'):
+                    pth = sp.Path(ob, sp.Line(ob.end, ob.end + (ob.end - ob.start) / 7))
+                    bb_, (b1, b2) = pth.bbox(), (ob.bbox(), pth[1].bbox())
+                    if not all(abs(v_ - w_) <= 1e-9 * (1 + abs(w_)) for v_, w_ in zip(bb_, (min(b1[0], b2[0]), max(b1[1], b2[1]), min(b1[2], b2[2]), max(b1[3], b2[3])))):
+                        ck.disagree(key='Path.bbox/not-the-union', site='svgpathtools/path.py:Path.bbox', what='path of %s of %r plus a line: bbox %r, members %r %r' % (on_, g, bb_, b1, b2),
+                                    case={'seg': repr(g), 'op': on_}, expected=[list(b1), list(b2)], observed=list(bb_), driver='derived')
     # paths: union of the segments' boxes
     pool = [sp.Line(0j, 3 + 4j), sp.QuadraticBezier(3 + 4j, 8 + 9j, 5 + 0j), sp.CubicBezier(5 + 0j, 1 - 6j, 9 - 6j, 6 + 1j),
             sp.Arc(6 + 1j, 3 + 2j, 30, True, False, 2 + 2j), sp.Line(-7 + 2j, -7 - 3j), sp.CubicBezier(0j, 0j, 3 + 3j, -3 + 3j),
